@@ -843,7 +843,7 @@ package objects
 //@ spec swapOK(ph *Allocation, req *Allocation) bool = !req.placeholder && req.taskGroupName != "" && req.taskGroupName == ph.taskGroupName && (forall t Key :: rv(ph.allocatedResource, t) >= rv(req.allocatedResource, t))
 
 //@ func (sa *Application) tryPlaceholderAllocate(nodeIterator func() NodeIterator, getNodeFn func(string) *Node) (res *AllocationResult)
-//@   props C06 C01 C02
+//@   props C06 C01 C02 C05 C07
 //@   sweep
 //@   mode nopanic=off
 //@   loop 1: invariant phFit != nil || reqFit != nil ==> phFit != nil && reqFit != nil && swapOK(phFit, reqFit)
@@ -858,7 +858,7 @@ package objects
 // the swap onto another node: same gate as every scheduler bind (C01) and the same swap guard, established where the
 // closure is handed to the iterator (obligation [crossnode] above)
 //@ func (sa *Application) tryPlaceholderAllocate$calls(objects.Node.TryAddAllocation)(node *Node) (cont bool)
-//@   props C06 C01
+//@   props C06 C01 C05 C07
 //@   sweep
 //@   mode nopanic=off
 //@   holds phFit != nil && reqFit != nil && swapOK(phFit, reqFit) && resKey == reqFit.allocationKey
@@ -1628,3 +1628,13 @@ package objects
 //@   ensures[rootset] sq.parent == nil && ((forall t Key :: rv(max, t) >= 0) && (exists t Key :: rv(max, t) > 0)) ==> sq.maxResource != nil && sq.maxResource != max && (forall t Key :: has(sq.maxResource, t) == has(max, t) && rv(sq.maxResource, t) == rv(max, t))
 //@   ensures[rootcleared] sq.parent == nil && !((forall t Key :: rv(max, t) >= 0) && (exists t Key :: rv(max, t) > 0)) ==> sq.maxResource == nil
 //@   ensures[nonroot] sq.parent != nil ==> sq.maxResource == old(sq.maxResource)
+
+// queue preemption only considers victims on nodes the ask could be bound to afterwards: a node that is not schedulable,
+// is reserved for somebody else or cannot hold the ask at all keeps no victims and gets no availability entry
+//@ spec abstract pnschedulable(n *Node) bool
+//@ func (p *Preemptor) initWorkingState$calls(objects.Node.GetAvailableResource)(node *Node) (cont bool)
+//@   props C01 C08
+//@   sweep
+//@   mode nopanic=off
+//@   at[flag] call objects.Node.IsSchedulable#1 after: assume ret == pnschedulable(arg0)
+//@   at[usable] call objects.Node.GetAvailableResource#1: assert arg0 == node && pnschedulable(node) && !hasOtherReservations
